@@ -305,6 +305,21 @@ N[-1]['more']=[dict(file=T,find="func (cp *CollectingProcess) createServerConfig
 neutral('exporter-build-in-helper',E,"func (ep *ExportingProcess) createAndSendIPFIXMsg(set entities.Set) (int, error) {\n	// seqNumber is also read by the template refresh goroutine (UDP).\n	seqNumber := atomic.LoadUint32(&ep.seqNumber)\n	if set.GetSetType() == entities.Data {\n		seqNumber = atomic.AddUint32(&ep.seqNumber, set.GetNumberOfRecords())\n	}\n	bytesSlice, err := CreateIPFIXMsg(set, ep.obsDomainID, seqNumber, time.Now())\n","func (ep *ExportingProcess) buildIPFIXMsg(set entities.Set) ([]byte, error) {\n	// seqNumber is also read by the template refresh goroutine (UDP).\n	seqNumber := atomic.LoadUint32(&ep.seqNumber)\n	if set.GetSetType() == entities.Data {\n		seqNumber = atomic.AddUint32(&ep.seqNumber, set.GetNumberOfRecords())\n	}\n	return CreateIPFIXMsg(set, ep.obsDomainID, seqNumber, time.Now())\n}\n\nfunc (ep *ExportingProcess) createAndSendIPFIXMsg(set entities.Set) (int, error) {\n	bytesSlice, err := ep.buildIPFIXMsg(set)\n",'stamping of the message moved into a helper that the send function calls once')
 neutral('query-counter',CC,"var (\n","var queriesServed int\n\nvar (\n",'a pure counter of served queries in the query handler')
 N[-1]['more']=[dict(file=CC,find="		mutex.Lock()\n		defer mutex.Unlock()\n		if count < 0 || count > len(flowRecords) {\n",replace="		mutex.Lock()\n		defer mutex.Unlock()\n		queriesServed = queriesServed + 1\n		if count < 0 || count > len(flowRecords) {\n")]
+# ---- behaviour-preserving edits written by independent sub-agents (neutral/<P>-nK/): each must stay silent in the check of
+# its own property and in every check it had alarmed when it was first analysed (DESIGN 8.5 / 8.6). Patches that still
+# raise an alarm are listed in neutral/RESIDUAL.md and are not part of the corpus.
+nind=0
+for d in sorted(glob.glob('/verif/neutral/C*-n*')):
+    if not (os.path.exists(d+'/patch.diff') and os.path.exists(d+'/meta.json')): continue
+    meta=json.load(open(d+'/meta.json'))
+    if meta.get('alarms_raised_now'): continue
+    name=os.path.basename(d); prop=name.split('-')[0]
+    props=sorted({prop} | set(meta.get('alarms_raised_when_first_analysed',{}).keys()))
+    for q in props:
+        M.setdefault(q,[]).append(dict(name='neutral-'+name,file='',find='',replace='',expect='',neutral=True,canary=False,
+            note='independent behaviour-preserving edit, see neutral/%s/meta.json'%name, patch='neutral/%s/patch.diff'%name))
+        nind+=1
+print('independent neutral entries',nind)
 for p,ms in M.items():
     json.dump(ms, open(f'/verif/checker/mutants/{p}.json','w'), indent=1)
 json.dump(N, open('/verif/checker/mutants/neutral.json','w'), indent=1)
